@@ -36,6 +36,14 @@ pub fn cases(thorough: bool, seed: u64) -> Vec<Params> {
                 for a in 0..nsub {
                     out.push(Params { n, t, ids: ids.clone(), subset: s.clone(), variant: V_SUBST, aux: a, seed });
                 }
+                // compound substitution (aux = 1000 + slot): (D, E) -> (D - rho*Delta, E + Delta) with the
+                // session's own binding factor rho: D + rho*E is unchanged, so only the dependence of the
+                // binding factors on the commitment list itself makes the honest shares fail
+                for slot in 0..k {
+                    out.push(Params { n, t, ids: ids.clone(), subset: s.clone(), variant: V_SUBST, aux: 1000 + slot, seed });
+                    // aux = 2000 + slot: both commitments of the slot replaced by free adversarial elements
+                    out.push(Params { n, t, ids: ids.clone(), subset: s.clone(), variant: V_SUBST, aux: 2000 + slot, seed });
+                }
                 // signer-side refusals: kind | position of the signer in the set << 8
                 for pos in 0..k {
                     if !thorough && pos != 0 && pos != k - 1 {
@@ -50,6 +58,29 @@ pub fn cases(thorough: bool, seed: u64) -> Vec<Params> {
                 }
             }
         }
+    }
+    // large signer sets: everybody signs; substitutions in the first, a middle and the last slot;
+    // signer-side refusals at the last position; a concurrent session's share in the last slot
+    for (n, t) in crate::large_pairs(thorough) {
+        if n > 40 {
+            continue;
+        }
+        let all: Vec<usize> = (0..n as usize).collect();
+        let k = n as u64;
+        for slot in [0u64, k / 2, k - 1] {
+            for comp in 0..2u64 {
+                out.push(Params { n, t, ids: IdSet::Default, subset: all.clone(), variant: V_SUBST, aux: 1 + 2 * slot + comp, seed });
+            }
+        }
+        out.push(Params { n, t, ids: IdSet::Default, subset: all.clone(), variant: V_SUBST, aux: 0, seed });
+        for slot in [0u64, 1, k / 2, k - 1] {
+            out.push(Params { n, t, ids: IdSet::Default, subset: all.clone(), variant: V_SUBST, aux: 1000 + slot, seed });
+            out.push(Params { n, t, ids: IdSet::Default, subset: all.clone(), variant: V_SUBST, aux: 2000 + slot, seed });
+        }
+        for a in [1u64, 6, 7] {
+            out.push(Params { n, t, ids: IdSet::Default, subset: all.clone(), variant: V_SIGNER, aux: a | ((k - 1) << 8), seed });
+        }
+        out.push(Params { n, t, ids: IdSet::Default, subset: all.clone(), variant: V_FILL, aux: 1 << (k.min(63) - 1), seed });
     }
     out
 }
@@ -98,7 +129,38 @@ pub fn run<C: Ciphersuite, L: Lab<C>>(lab: &mut L, p: &Params) {
             let base = a.commitments.clone();
             let kk = k as u64;
             // build the verifier's package A' = A with one field replaced
-            let (pkg, vkey, what, dropped): (fc::SigningPackage<C>, fc::VerifyingKey<C>, String, Option<Identifier<C>>) = if p.aux == 0 {
+            let (pkg, vkey, what, dropped): (fc::SigningPackage<C>, fc::VerifyingKey<C>, String, Option<Identifier<C>>) = if p.aux >= 2000 {
+                let slot = (p.aux - 2000) as usize % k;
+                let id = a.signers[slot];
+                let (d2, e2) = (lab.adv_element("D'"), lab.adv_element("E'"));
+                // at least one of the two differs from the honest entry
+                if slot % 2 == 0 {
+                    lab.assume_ne_e(d2, base[&id].hiding().value(), "the hiding commitment is replaced");
+                } else {
+                    lab.assume_ne_e(e2, base[&id].binding().value(), "the binding commitment is replaced");
+                }
+                lab.set_policy(Pol::ForkAdv);
+                let c = SigningCommitments::new(NonceCommitment::new(d2), NonceCommitment::new(e2));
+                (fc::SigningPackage::new(with_entry(&base, id, c), &ma), vk, format!("commitments of slot {slot} replaced by arbitrary other elements"), None)
+            } else if p.aux >= 1000 {
+                let slot = (p.aux - 1000) as usize % k;
+                let id = a.signers[slot];
+                // session A's binding factor of that signer — the one the library itself used (public:
+                // anybody can recompute it from the package), decoded from its serialisation
+                let rho = match fc::compute_binding_factor_list(&a.package, &vk, &[]).ok().and_then(|l| l.get(&id).map(|b| b.serialize())).and_then(|b| scalar_from_bytes::<C>(&b)) {
+                    Some(r) => r,
+                    None => {
+                        lab.leave();
+                        return;
+                    }
+                };
+                let delta = lab.adv_element("Delta");
+                // comparisons on the adversarial commitments (e.g. the identity test) fork: a shifted
+                // commitment that happens to be the identity is rejected too, by another check
+                lab.set_policy(Pol::ForkAdv);
+                let c = SigningCommitments::new(NonceCommitment::new(base[&id].hiding().value() - delta * rho), NonceCommitment::new(base[&id].binding().value() + delta));
+                (fc::SigningPackage::new(with_entry(&base, id, c), &ma), vk, format!("commitments of slot {slot} shifted along the binding-factor line (D - rho*Delta, E + Delta)"), None)
+            } else if p.aux == 0 {
                 (fc::SigningPackage::new(base.clone(), &mb), vk, "message replaced".into(), None)
             } else if p.aux <= 2 * kk {
                 let slot = ((p.aux - 1) / 2) as usize;
